@@ -28,7 +28,7 @@ enum { P_COALESCED, P_RESTART, P_ATOMIC_MULTI, P_YIELD_REQUEUE_BEHIND, P_FAST_PA
        P_TIMERS_SAME_PASS, P_TIMER_TIE, P_TIMEOUT_IMMEDIATE, P_WRAP_0, P_WRAP_80, P_IDLE_PASS,
        P_KILL_TRUE, P_KILL_CURRENT, P_SELF_RUN, P_WAKE_NOW, P_WAKE_TIMER, P_WAKE_UNBOUNDED,
        P_SHIFT_CHECKED, P_TIMER_AND_YIELDER, P_ATOMIC_FROM_FIBRE, P_EXIT_WITH_TIMER, P_MODEL_FORKED,
-       P_WRAP_BASE_IN_C01, P_MARATHON, P_SOLO_LEAP, P_CROWD };
+       P_WRAP_BASE_IN_C01, P_MARATHON, P_SOLO_LEAP, P_CROWD, P_RUNQ_CROWD, P_CROWD_MIDDLE };
 static const char *const probe_names[] = {
 	"reasons_coalesced", "exited_fibre_restarted", "several_atomic_requests_drained_together",
 	"yielder_requeued_behind_others", "single_yielder_fast_path", "timer_fired",
@@ -40,9 +40,10 @@ static const char *const probe_names[] = {
 	"exit_or_fail_with_timer_pending", "queued_fibre_called_fibre_timeout_model_forked",
 	"c01_history_on_wrap_placed_time_base", "marathon_of_300_to_131100_requests_and_passes",
 	"clock_leapt_most_of_2^31_while_a_lone_fibre_yielded",
-	"crowd_of_1000_to_131072_sleeping_fibres", NULL };
+	"crowd_of_1000_to_131072_sleeping_fibres", "run_queue_of_255_to_700_fibres_behind_a_yielder",
+	"crowd_member_sleeping_until_the_middle_of_the_pending_due_times", NULL };
 
-#define MAXF 10
+#define MAXF 14
 #define AQ_DEPTH 8
 
 /* ---- the real fibres ---------------------------------------------------- */
@@ -879,6 +880,108 @@ static int crowd_body(fibre_t *f)
 	PT_END();
 }
 
+/* ---- a crowd on the run queue: hundreds of runnable fibres behind a yielding one ---------- */
+static uint32_t yl_left;
+static int rq_body(fibre_t *f)
+{
+	cf_t *c = containerof(f, cf_t, fibre);
+	PT_BEGIN_FIBRE(f);
+	for (;;) {
+		crowd_last = c->id;
+		crowd_calls++;
+		if (c->id == 0 && yl_left > 0) {
+			yl_left--;
+			PT_YIELD();
+		} else {
+			PT_WAIT();
+		}
+	}
+	PT_END();
+}
+
+static void runq_crowd(void)
+{
+	/* fibre 0 yields; fibres 1..n are made runnable while it does; FIFO order says they all run
+	 * before it gets its next turn, whatever n is */
+	static const uint32_t sizes[] = { 3, 255, 256, 257, 511, 512, 513, 700 };
+	uint32_t n = sizes[ch(8)];
+	uint32_t T = 5000 + ch(1000);
+	free(crowd_f);
+	crowd_f = calloc(n + 1, sizeof(cf_t));
+	if (!crowd_f)
+		sim_discard("no memory for a crowd");
+	crowd_calls = 0;
+	yl_left = 3 + ch(3);
+	sim_ev("runq_crowd", n, T, yl_left);
+	sim_probe(P_RUNQ_CROWD);
+	sim_clock = T;
+	for (uint32_t i = 0; i <= n; i++) {
+		crowd_f[i].id = i;
+		fibre_init(&crowd_f[i].fibre, rq_body);
+	}
+	sim_budget(400000000);
+	fibre_run(&crowd_f[0].fibre);
+	uint32_t wake = fibre_scheduler_next(T);
+	if (crowd_calls != 1 || crowd_last != 0 || (wake != T && sim_prop_is("C03")))
+		sim_fail(NULL, "DISPATCH:crowd", "a lone runnable fibre was not dispatched by the next pass (or the pass did not return t although it yielded)");
+	/* a second turn alone: the single-yielder fast path */
+	(void)fibre_scheduler_next(T);
+	uint32_t rounds = 1 + ch(2);
+	for (uint32_t round = 0; round < rounds; round++) {
+		uint32_t order0 = ch(2);	/* made runnable in ascending or descending order */
+		for (uint32_t i = 1; i <= n; i++)
+			fibre_run(&crowd_f[order0 ? n + 1 - i : i].fibre);
+		for (uint32_t i = 1; i <= n + 1; i++) {
+			uint32_t want = i <= n ? (order0 ? n + 1 - i : i) : 0;
+			uint32_t before = crowd_calls;
+			wake = fibre_scheduler_next(T + (i & 1));
+			if (crowd_calls != before + 1 || crowd_last != want)
+				sim_fail(NULL, "DISPATCH:crowd",
+					 "%u fibres were made runnable behind a yielding fibre; pass %u of that round dispatched fibre %u, FIFO order says fibre %u",
+					 n, i, crowd_calls == before ? UINT32_MAX : crowd_last, want);
+			bool more = i <= n || yl_left > 0 || (i == n + 1 && crowd_last == 0 && yl_left + 1 > 0);
+			(void)more;
+			if (i <= n && wake != T + (i & 1) && sim_prop_is("C03"))
+				sim_fail(NULL, "WAKEUP_VALUE", "fibre_scheduler_next returned t%+d with %u fibres still runnable",
+					 (int32_t)(wake - T - (i & 1)), n + 1 - i);
+		}
+		if (yl_left == 0)
+			break;
+	}
+	sim_ops(n);
+	sim_check_sanitizer();
+	free(crowd_f);
+	crowd_f = NULL;
+}
+
+static uint32_t crowd_T;
+static int crowd_cmp(const void *pa, const void *pb)
+{
+	const cf_t *x = *(cf_t *const *)pa, *y = *(cf_t *const *)pb;
+	uint32_t dx = x->due - crowd_T, dy = y->due - crowd_T;
+	if (dx != dy)
+		return dx < dy ? -1 : 1;
+	return x->id < y->id ? -1 : 1;	/* equal due times: registration order (ids are given in that order) */
+}
+
+static void crowd_start(cf_t *c, uint32_t i, uint32_t T, uint32_t asleep, uint32_t earliest)
+{
+	c->id = i;
+	fibre_init(&c->fibre, crowd_body);
+	sim_budget(40000000);
+	fibre_run(&c->fibre);
+	uint32_t before = crowd_calls;
+	uint32_t wake = fibre_scheduler_next(T);
+	if (crowd_calls != before + 1 || crowd_last != i)
+		sim_fail(NULL, "DISPATCH:crowd", "fibre %u of a crowd was made runnable but the next pass dispatched %s (fibre %u)",
+			 i, crowd_calls == before ? "nothing" : "something else", crowd_last);
+	if (crowd_timeout_ret)
+		sim_fail(NULL, "TIMEOUT_RET", "fibre_timeout(now+%u) returned true (fibre %u of a crowd)", c->due - T, i);
+	if (wake != earliest && sim_prop_is("C03"))
+		sim_fail(NULL, "WAKEUP_VALUE", "with %u fibres asleep fibre_scheduler_next returned t%+d, the earliest pending due time is t+%u",
+			 asleep, (int32_t)(wake - T), earliest - T);
+}
+
 static void crowd(void)
 {
 	/* starting a fibre costs the library a search of the timer queue, so a crowd of n costs n^2/2
@@ -887,42 +990,45 @@ static void crowd(void)
 	static const uint32_t big[] = { 65536, 65537, 65535, 65538 };
 	static const uint32_t bases[] = { 1000, 0xffff0000u, 0x7fff0000u, 0xfffffff0u };
 	bool huge = sim_thorough() && sim_run_index() < 16;
+	if (!huge && ch(2)) {
+		runq_crowd();
+		return;
+	}
 	uint32_t n = huge ? big[sim_run_index() % 4] : 2 + ch(sim_choose(2) ? 300 : 3000);
 	uint32_t T = bases[ch(4)];
-	uint32_t stride = 1 + ch(3);
-	uint32_t nkill = ch(3);
+	uint32_t stride = 2 * (1 + ch(2));
+	uint32_t nkill = ch(2) ? ch(3) : ch(9);
+	uint32_t nlate = ch(7);
+	bool middles = !huge && ch(2);		/* some due times fall in the middle of those already pending */
 	free(crowd_f);
-	crowd_f = calloc(n, sizeof(cf_t));
+	crowd_f = calloc(n + nlate, sizeof(cf_t));
 	if (!crowd_f)
 		sim_discard("no memory for a crowd");
 	crowd_calls = 0;
 	crowd_spurious = false;
+	crowd_T = T;
 	sim_ev("crowd", n, T, stride * 4 + nkill);
 	sim_probe(P_CROWD);
 	sim_clock = T;
+	uint32_t earliest = 0;
 	for (uint32_t i = 0; i < n; i++) {
 		cf_t *c = &crowd_f[i];
-		c->id = i;
+		/* due times decrease with the registration order (every sorted insert is at the head)... */
 		c->due = T + 10 + (n - 1 - i) * stride;
-		fibre_init(&c->fibre, crowd_body);
-		sim_budget(2000000);
-		fibre_run(&c->fibre);
-		uint32_t before = crowd_calls;
-		uint32_t wake = fibre_scheduler_next(T);
-		if (crowd_calls != before + 1 || crowd_last != i)
-			sim_fail(NULL, "DISPATCH:crowd", "fibre %u of %u was made runnable but the next pass dispatched %s (fibre %u)",
-				 i, n, crowd_calls == before ? "nothing" : "something else", crowd_last);
-		if (crowd_timeout_ret)
-			sim_fail(NULL, "TIMEOUT_RET", "fibre_timeout(now+%u) returned true (fibre %u of a crowd)", c->due - T, i);
-		if (wake != c->due && sim_prop_is("C03"))
-			sim_fail(NULL, "WAKEUP_VALUE", "with %u fibres asleep fibre_scheduler_next returned t%+d, the earliest pending due time is t+%u",
-				 i + 1, (int32_t)(wake - T), c->due - T);
+		if (middles && i > 12 && ch(20) == 0) {
+			/* ...except for these, which land 1..40 places into the queue, some on an equal due time */
+			c->due += stride * (1 + ch(i < 40 ? i - 1 : 40)) + ch(2);
+			sim_probe(P_CROWD_MIDDLE);
+		}
+		if (i == 0 || (int32_t)(c->due - earliest) < 0)
+			earliest = c->due;
+		crowd_start(c, i, T, i + 1, earliest);
 	}
 	sim_ops(n);
 	sim_check_sanitizer();
-	/* a few are killed: the number of pending timeouts moves by one or two */
+	/* some are killed: the number of pending timeouts moves, remembered positions go stale */
 	for (uint32_t k = 0; k < nkill; k++) {
-		uint32_t v = ch(n);
+		uint32_t v = ch(4) ? n - 1 - ch(n < 64 ? n : 64) : ch(n);	/* mostly among the most recent */
 		sim_budget(40000000);
 		bool r = fibre_kill(&crowd_f[v].fibre);
 		if (r != !crowd_f[v].dead)
@@ -930,32 +1036,60 @@ static void crowd(void)
 		crowd_f[v].dead = true;
 		sim_fault(F_KILL);
 	}
-	/* one timeout falls due per pass, in due order */
+	/* late joiners: due somewhere among the sleepers */
+	for (uint32_t k = 0; k < nlate; k++) {
+		cf_t *c = &crowd_f[n + k];
+		uint32_t near = ch(4) ? n - 1 - ch(n < 64 ? n : 64) : ch(n);
+		c->due = crowd_f[near].due + ch(3);
+		earliest = 0;
+		bool any = false;
+		for (uint32_t i = 0; i < n + k; i++)
+			if (!crowd_f[i].dead && (!any || (int32_t)(crowd_f[i].due - earliest) < 0)) {
+				earliest = crowd_f[i].due;
+				any = true;
+			}
+		if (!any || (int32_t)(c->due - earliest) < 0)
+			earliest = c->due;
+		crowd_start(c, n + k, T, n + k + 1, earliest);
+	}
+	/* the timeouts fall due one pass at a time, in due order (registration order for equal due times) */
+	uint32_t total = n + nlate, nlive = 0;
+	cf_t **live = malloc(sizeof(cf_t *) * total);
+	if (!live)
+		sim_discard("no memory for a crowd");
+	for (uint32_t i = 0; i < total; i++)
+		if (!crowd_f[i].dead)
+			live[nlive++] = &crowd_f[i];
+	qsort(live, nlive, sizeof(live[0]), crowd_cmp);
 	uint32_t t = T;
-	for (uint32_t j = n; j-- > 0;) {
-		cf_t *c = &crowd_f[j];
-		if (c->dead)
-			continue;
-		uint32_t next = j;
-		while (next-- > 0 && crowd_f[next].dead)
-			;
-		bool more = next != UINT32_MAX && next < j;
-		t = c->due;
+	for (uint32_t j = 0; j < nlive; j++) {
+		cf_t *c = live[j];
+		if ((int32_t)(c->due - t) > 0)
+			t = c->due;
 		sim_clock = t;
-		sim_budget(2000000);
+		sim_budget(40000000);
 		uint32_t before = crowd_calls;
 		uint32_t wake = fibre_scheduler_next(t);
-		if (crowd_calls == before)
+		if (crowd_calls == before) {
+			free(live);
 			sim_fail(NULL, "LATE_FIRE:crowd", "with %u fibres asleep the pass at the due time of fibre %u dispatched nothing",
-				 j + 1, j);
-		if (crowd_calls != before + 1 || crowd_last != j || crowd_spurious)
-			sim_fail(NULL, "EXPIRY_ORDER:crowd", "the pass at the due time of fibre %u dispatched fibre %u%s", j, crowd_last,
+				 nlive - j, c->id);
+		}
+		if (crowd_calls != before + 1 || crowd_last != c->id || crowd_spurious) {
+			uint32_t id = c->id;
+			free(live);
+			sim_fail(NULL, "EXPIRY_ORDER:crowd", "the pass at the due time of fibre %u dispatched fibre %u%s", id, crowd_last,
 				 crowd_spurious ? " for a third time" : "");
-		uint32_t want = more ? crowd_f[next].due : t + FIBRE_UNBOUNDED_SLEEP;
-		if (wake != want && sim_prop_is("C03"))
+		}
+		uint32_t want = j + 1 < nlive ? ((int32_t)(live[j + 1]->due - t) <= 0 ? t : live[j + 1]->due)
+					      : t + FIBRE_UNBOUNDED_SLEEP;
+		if (wake != want && sim_prop_is("C03")) {
+			free(live);
 			sim_fail(NULL, "WAKEUP_VALUE", "with %u fibres still asleep fibre_scheduler_next returned t%+d, expected t%+d",
-				 j, (int32_t)(wake - t), (int32_t)(want - t));
+				 nlive - j - 1, (int32_t)(wake - t), (int32_t)(want - t));
+		}
 	}
+	free(live);
 	sim_ticks(t - T);
 	sim_budget(2000000);
 	uint32_t before = crowd_calls;
